@@ -55,6 +55,30 @@ struct SliceWorld<S: Service> {
     sub_labels: std::collections::HashSet<usize>,
 }
 
+// Flatbuffer payload mode (`new local-fb|ipc-fb …`, op `loanf <p> <l> <n> [fit|late]`).
+//
+// Restrictions of the default histories, each one because the unmodified implementation misbehaves outside of it
+// (replay: `seqdiff pubsub replay`, the model agrees with every line before the marked one):
+//  F1 no table field carries its default value (data_1 = i + 1, tags >= 1).  The flatbuffer builder omits such a field and
+//     expects its vtable slot to be zero already; ResizableMemory (iceoryx2-bb/flatbuffers/src/resizable_memory.rs) hands out
+//     the chunk as it is (bytes of the previous sample, stale copy of the header after a grow).  With VERIF_FB_DEFAULTS=1
+//     (entry 0 gets data_1 = 0):  new local-fb 1 1 1 0 1 0 1; cpub 0 1; csub 0 - -; loanf 0 0 2; send 0 0 11; recv 0;
+//     dsample 0 0; loanf 0 1 2  -> the second sample (same chunk again) is not a valid flatbuffer.
+//  F2 the whole content is built inside `loanf` (default); `late` writes the entries at `send`.  DynamicMemory::grow
+//     (iceoryx2-cal/src/resizable_shared_memory/dynamic.rs) asks the CURRENT segment to grow the chunk, whatever segment the
+//     chunk lives in: a loan of an older segment whose new size fits the bucket of the newest segment is "grown in place" at
+//     the same offset of the newest segment — a chunk it does not own.  new local-fb 1 1 3 0 3 1 1; cpub 0 2; csub 0 - -;
+//     loanf 0 0 2 late; loanf 0 1 2 late; send 0 1 1; recv 0; send 0 0 2  -> the builder works on the chunk the subscriber
+//     holds (here: panic inside the builder, the bytes are not its own).
+//  F3 a loan that is still open when a later loan of its publisher is sent does not grow (`fit`, generator word `overtake`
+//     lifts it).  ChunkMutSharedState::grow (iceoryx2/src/port/details/chunk_mut_shared_state.rs) stores the new layout size
+//     INCLUDING the headers as payload size: a grown sample reports number_of_elements and chunk size too large by the header
+//     length (payload_bytes() reads that many bytes past the payload area) and the connection, which derives the chunk index
+//     from offset / size-of-the-last-sent-sample, sees two sizes in one segment.  new local-fb 1 1 2 0 2 1 1; cpub 0 2;
+//     csub 0 - -; loanf 0 0 2; loanf 0 1 2; send 0 1 1; send 0 0 2; recv 0; dsample 0 0; loanf 0 2 1  -> debug assertion in
+//     zero_copy_connection/common.rs reclaim (wrong chunk index without debug assertions).
+//  (dpub: a dropped publisher's not yet mapped segments are lost, as in slice mode.)
+
 /// a flatbuffer loan.
 /// `Ready` (default): the whole content (title, k entries with a placeholder tag) is built and finished inside `loanf`, so
 /// every grow of the loan happens while its chunk lies in the publisher's newest segment; `send` writes the tag in place.
@@ -220,8 +244,14 @@ const FB_INITIAL_RESERVE: usize = 80;
 
 /// data_1 of entry i is i + 1: no field of an entry has its default value (tags are >= 1).  A field with the default value
 /// is omitted by the flatbuffer builder, its vtable slot is expected to be zero already — which the loaned memory does not
-/// guarantee (stale bytes of the moved header / of the previous user of the chunk): see the finding in DESIGN notes.
+/// guarantee (stale bytes of the moved header / of the previous user of the chunk): finding F1 above.
 /// `VERIF_FB_DEFAULTS=1` makes entry 0 carry data_1 = 0 to reproduce that.
+/// VERIF_FBDEBUG=1: decoded samples, header values and panic messages on stderr
+fn fb_debug() -> bool {
+    static V: std::sync::OnceLock<bool> = std::sync::OnceLock::new();
+    *V.get_or_init(|| std::env::var("VERIF_FBDEBUG").is_ok())
+}
+
 fn fb_first() -> i32 {
     static V: std::sync::OnceLock<i32> = std::sync::OnceLock::new();
     *V.get_or_init(|| if std::env::var("VERIF_FB_DEFAULTS").is_ok() { 0 } else { 1 })
@@ -232,9 +262,9 @@ fn fb_first() -> i32 {
 fn fb_decode(bytes: &[u8]) -> Option<u64> {
     let root = match flatbuffers::root::<UnboundedData>(bytes) {
         Ok(r) => r,
-        Err(e) => { if std::env::var("VERIF_FBDEBUG").is_ok() { eprintln!("# fb invalid: {e:?} len {}", bytes.len()); } return None; }
+        Err(e) => { if fb_debug() { eprintln!("# fb invalid: {e:?} len {}", bytes.len()); } return None; }
     };
-    if std::env::var("VERIF_FBDEBUG").is_ok() { eprintln!("# fb root: {root:?}"); }
+    if fb_debug() { eprintln!("# fb root: {root:?}"); }
     let entries = root.entries()?;
     let k = entries.len();
     if k == 0 { return None; }
@@ -275,7 +305,7 @@ fn fb_tag_positions(bytes: &[u8]) -> Option<Vec<usize>> {
 /// header values first (a reused chunk may carry anything), then the bytes
 fn fb_read<S: Service>(s: &Sample<S, Fb, ()>) -> Option<(u64, u64, &[u8])> {
     let (po, ne) = (s.header().payload_offset(), s.header().number_of_elements());
-    if std::env::var("VERIF_FBDEBUG").is_ok() { eprintln!("# fb header: payload_offset {po} number_of_elements {ne}"); }
+    if fb_debug() { eprintln!("# fb header: payload_offset {po} number_of_elements {ne}"); }
     if ne < po || ne > (1 << 24) { return None; }
     Some((po, ne, s.payload_bytes()))
 }
@@ -702,7 +732,7 @@ fn list_resources(prefix: &str, node_dir: &str) -> String {
 
 impl Comp for PubSubComp {
     fn exec(&mut self, t: &[&str]) -> String {
-        if std::env::var("VERIF_FBDEBUG").is_ok() {
+        if fb_debug() {
             // show the panic message (the global hook is silent)
             let r = std::panic::catch_unwind(std::panic::AssertUnwindSafe(|| self.exec_inner(t)));
             return match r {
@@ -803,8 +833,8 @@ pub fn generate(a: &Args) -> Vec<Vec<String>> {
                     let k = if rng.chance(70) { cur } else { rng.range(1, cur) };
                     // a loan that is still open when a LATER loan of the same publisher is sent must not grow (`fit`): a grown
                     // sample reports a chunk size that is larger (by the header length) than that of the other samples of its
-                    // segment; sent after one of those it breaks the per-segment chunk index of the connection (finding,
-                    // see DESIGN.md) — sends in loan order are safe, a grown loan is always the first chunk of a new segment
+                    // segment; sent after one of those it breaks the per-segment chunk index of the connection (finding F3
+                    // at `FbLoan`) — sends in loan order are safe, a grown loan is always the first chunk of a new segment
                     let t: Vec<&str> = l.split(' ').collect();
                     let (p, id) = (t[1], t[2].parse::<usize>().unwrap());
                     let mut overtaken = false;
